@@ -8,6 +8,12 @@ REPO=${VERIF_REPO:-/repo}
 B=${VERIF_BUILD:-$V/build}
 mkdir -p "$B" "$V/evidence" "$V/work"
 export STIR_CONFIG_DIR=$REPO/src/config
+# scratch builds (sensitivity runs against a mutated/patched copy of /repo) may share a compiler cache
+LAUNCH=()
+if [ -n "${VERIF_SCRATCH:-}" ] && command -v ccache >/dev/null; then
+  export CCACHE_DIR=${CCACHE_DIR:-/tmp/ccache} CCACHE_BASEDIR=$REPO CCACHE_NOHASHDIR=1
+  LAUNCH=(-DCMAKE_CXX_COMPILER_LAUNCHER=ccache -DCMAKE_C_COMPILER_LAUNCHER=ccache)
+fi
 
 COMMON_OPTS=(-G Ninja -DBUILD_TESTING=OFF -DBUILD_EXECUTABLES=OFF -DBUILD_DOCUMENTATION=OFF
   -DDISABLE_HDF5=ON -DDISABLE_ITK=ON -DDISABLE_CERN_ROOT=ON -DDISABLE_LLN_MATRIX=ON -DDISABLE_UPENN=ON
@@ -20,19 +26,19 @@ configure() { # flavour
   mkdir -p "$d"
   case $f in
     plain)
-      cmake -S "$REPO" -B "$d" "${COMMON_OPTS[@]}" -DSTIR_OPENMP=OFF \
+      cmake -S "$REPO" -B "$d" "${COMMON_OPTS[@]}" "${LAUNCH[@]}" -DSTIR_OPENMP=OFF \
         -DCMAKE_C_COMPILER=gcc -DCMAKE_CXX_COMPILER=g++ \
         "-DCMAKE_CXX_FLAGS=-I$V/harness/shim -DUCL_STIR_VERIF -Wno-error -w" \
         "-DCMAKE_C_FLAGS=-w" \
         "-DCMAKE_CXX_FLAGS_RELEASE=-O2 -g1" "-DCMAKE_C_FLAGS_RELEASE=-O2 -g1" ;;
     asan)
-      cmake -S "$REPO" -B "$d" "${COMMON_OPTS[@]}" -DSTIR_OPENMP=OFF \
+      cmake -S "$REPO" -B "$d" "${COMMON_OPTS[@]}" "${LAUNCH[@]}" -DSTIR_OPENMP=OFF \
         -DCMAKE_C_COMPILER=clang -DCMAKE_CXX_COMPILER=clang++ \
         "-DCMAKE_CXX_FLAGS=-I$V/harness/shim -DUCL_STIR_VERIF -w -fsanitize=fuzzer-no-link,address,undefined -fno-sanitize-recover=undefined -fno-sanitize=null,function -fno-omit-frame-pointer" \
         "-DCMAKE_C_FLAGS=-w -fsanitize=fuzzer-no-link,address,undefined -fno-sanitize-recover=undefined -fno-sanitize=null,function" \
         "-DCMAKE_CXX_FLAGS_RELEASE=-O1 -g1" "-DCMAKE_C_FLAGS_RELEASE=-O1 -g1" ;;
     omp)
-      cmake -S "$REPO" -B "$d" "${COMMON_OPTS[@]}" -DSTIR_OPENMP=ON \
+      cmake -S "$REPO" -B "$d" "${COMMON_OPTS[@]}" "${LAUNCH[@]}" -DSTIR_OPENMP=ON \
         -DCMAKE_C_COMPILER=gcc -DCMAKE_CXX_COMPILER=g++ \
         "-DCMAKE_CXX_FLAGS=-I$V/harness/shim -DUCL_STIR_VERIF -Wno-error -w" \
         "-DCMAKE_C_FLAGS=-w" \
